@@ -342,10 +342,11 @@ def poll (st : State) (id : String) : State :=
   updateSub st id (fun s =>
     if s.alive ∧ s.req.mode = .poll then pumpAll (doWalk st.cache s) else s)
 
-/-- the client half-closes (`Recv` returns EOF): POLL ends OK -/
+/-- the client half-closes (`Recv` returns EOF): POLL ends OK.  The handler returns and the stream is
+gone: a response the sender holds inside a gated `Send` is never delivered (as for the send timeout) -/
 def eof (st : State) (id : String) : State :=
   updateSub st id (fun s =>
-    if s.alive ∧ s.req.mode = .poll then { s with alive := false, status := some .ok } else s)
+    if s.alive ∧ s.req.mode = .poll then { s with alive := false, status := some .ok, blocked := none } else s)
 
 def setGate (st : State) (id : String) (shut : Bool) : State :=
   updateSub st id (fun s =>
